@@ -24,6 +24,26 @@ func init() {
 		},
 	})
 	register(&Property{
+		ID: "C22",
+		Explanation: "Decides the structure of policy evaluation, not which snapshots a policy selects: (bucket-table) in ApplyPolicy every counting and within field of ExpirePolicy (a field without a row is a violation) is paired with the bucket function of its own granularity (Last↔always, Hourly↔ymdh, Daily↔ymd, Weekly↔yw, Monthly↔ym, Yearly↔y, likewise for the Within* fields), with a reason text naming that granularity and the last-seen bucket starting at -1; the counters reported with a kept snapshot come from the row of the same name; the bucket functions compute their value from exactly the calendar fields of their granularity (y: Year; ym: Year, Month; ymd: Year, Month, Day; ymdh: Year, Month, Day, Hour; yw: ISOWeek) and `always` returns the snapshot's position; (policy-partition) every loop iteration appends the current snapshot to keep or to remove, never to both, every kept snapshot gets one KeepReason, the function returns (keep, remove, reasons), and every field of ExpirePolicy is read. Not decided: the selection itself (counts, 'oldest' rule, within arithmetic), monotonicity, and grouping.",
+		Assumptions: commonAssumptions,
+		Technique:   "static analysis: literal-table pairing by resolved function objects + per-iteration path cuts over the loop body + struct-field coverage (go/ssa, go/types)",
+		Run: func(c *eng.Ctx) {
+			ruleBucketTable(c)
+			rulePolicyPartition(c)
+		},
+		Controls: []Control{
+			{Name: "weekly-uses-month-bucket", File: "internal/data/snapshot_policy.go",
+				Old: "		{p.Weekly, yw, -1, \"weekly snapshot\"},", New: "		{p.Weekly, ym, -1, \"weekly snapshot\"},", Rule: "bucket-table"},
+			{Name: "daily-bucket-ignores-month", File: "internal/data/snapshot_policy.go",
+				Old: "	return d.Year()*10000 + int(d.Month())*100 + d.Day()", New: "	return d.Year()*10000 + d.Day()", Rule: "bucket-table"},
+			{Name: "tagged-snapshots-in-both-lists", File: "internal/data/snapshot_policy.go",
+				Old: "		} else {\n			remove = append(remove, cur)\n		}\n	}\n\n	return keep, remove, reasons", New: "		}\n		if !keepSnap || len(keepSnapReasons) == 0 {\n			remove = append(remove, cur)\n		}\n	}\n\n	return keep, remove, reasons", Rule: "policy-partition"},
+			{Name: "within-yearly-never-consulted", File: "internal/data/snapshot_policy.go",
+				Old: "		{p.WithinYearly, y, -1, \"yearly within\"},", New: "		{p.WithinMonthly, y, -1, \"yearly within\"},", Rule: "bucket-table"},
+		},
+	})
+	register(&Property{
 		ID: "C25",
 		Explanation: "Decides the effect clause, not the resulting tag list: (tag-effects) the call closure of changeTags stores to no field of data.Snapshot other than Tags and Original (every other field of the snapshot is unchanged by construction); Tags is assigned the --set list only on the len(setTags)!=0 edge and AddTags/RemoveTags run only on the other edge; runTag rejects conflicting options; (replace-order) the retagged snapshot is saved before the old one is removed, so the number of snapshots never drops; (set-always-persisted) on the len(setTags)!=0 edge sn.Tags is assigned the --set list itself (nil for the single empty string) and every successful return passes SaveSnapshot — skipping the save is accepted only behind an exact equality test (slices.Equal / reflect.DeepEqual) of old and new list — added after a seeded change that skipped the save for set-equal lists. Not decided: the resulting tag list of --add/--remove — reading the code showed that Snapshot.RemoveTags stops after the first match, so a duplicated tag [a,a] survives `tag --remove a` (documented in DESIGN.md §5 as an observation; no sound structural rule decides it).",
 		Assumptions: commonAssumptions,
